@@ -1,24 +1,37 @@
 #!/bin/bash
-# Runs every kept seeded change against the quick tier of its property's check, in a scratch
-# worktree of /repo HEAD (created under /tmp, removed afterwards), through AIOFTP_SRC.
-# Writes seeded/MATRIX.md.  /repo itself is never touched.
+# Re-confirms every kept seeded change at /repo HEAD and runs the quick tier of its property's
+# check against it, in a scratch worktree (created under /tmp, removed afterwards) through
+# AIOFTP_SRC.  Writes seeded/MATRIX.md.  /repo itself is never touched.
+#   SKIP_CONFIRM=1  skips the suite / demonstration part
 set -u
 wt=/tmp/wt_matrix_$$
 git -C /repo worktree add -q --detach "$wt" HEAD || exit 2
-trap "git -C /repo worktree remove --force $wt" EXIT
+trap "git -C /repo worktree remove --force $wt; rm -rf /tmp/ev_matrix_$$" EXIT
 out=/verif/seeded/MATRIX.md
-echo "# seeded changes x checks (quick tier, $(git -C /repo rev-parse --short HEAD))" > $out
-echo "" >> $out; echo "| seeded change | check | exit | first violation line |" >> $out; echo "|---|---|---|---|" >> $out
+tmp=$out.tmp
+echo "# seeded changes x checks (quick tier, /repo $(git -C /repo rev-parse --short HEAD), /verif $(git -C /verif rev-parse --short HEAD))" > $tmp
+echo "" >> $tmp
+echo "suite = existing test suite with the change applied; demo = exit status of the change's own demonstration with / without the change (1/0 = it shows the breakage and only then); exit = exit status of the check (1 = VIOLATION reported)." >> $tmp
+echo "" >> $tmp; echo "| seeded change | suite | demo with/without | check | exit | first violation line |" >> $tmp; echo "|---|---|---|---|---|---|" >> $tmp
 cd /verif
-for d in seeded/C*-*/; do
+for d in ${SEEDS:-seeded/C*-*/}; do
   id=$(basename $d); prop=${id%%-*}
   git -C $wt reset -q --hard HEAD
-  if ! (git -C $wt apply "/verif/$d/patch.diff" 2>/dev/null || git -C $wt apply --3way "/verif/$d/patch.diff" 2>/dev/null); then
-    echo "| $id | $prop | - | PATCH DOES NOT APPLY |" >> $out; continue
+  if ! git -C $wt apply "/verif/seeded/$id/patch.diff" 2>/dev/null; then
+    echo "| $id | - | - | $prop | - | PATCH DOES NOT APPLY |" >> $tmp; continue
+  fi
+  suite="-"; dw="-"; dwo="-"
+  if [ -z "${SKIP_CONFIRM:-}" ]; then
+    suite=$(cd $wt && PYTHONPATH=$wt/src timeout 900 /venv/bin/python -m pytest -q -p no:cacheprovider 2>&1 | tail -1 | sed 's/ in [0-9.]*s.*//; s/, [0-9]* warnings\?//')
+    (cd $wt && PYTHONPATH=$wt/src timeout 300 /venv/bin/python /verif/seeded/$id/demo.py >/dev/null 2>&1); dw=$?
   fi
   res=$(AIOFTP_SRC=$wt/src VERIF_EVIDENCE_DIR=/tmp/ev_matrix_$$ /venv/bin/python checks/run.py $prop --tier quick 2>&1); rc=$?
-  first=$(echo "$res" | grep -m1 "^violation:" | cut -c1-140 | tr '|' '/')
-  echo "| $id | $prop | $rc | ${first:-"-"} |" >> $out
-  echo "$id exit=$rc"
+  if [ -z "${SKIP_CONFIRM:-}" ]; then
+    git -C $wt reset -q --hard HEAD
+    (cd $wt && PYTHONPATH=$wt/src timeout 300 /venv/bin/python /verif/seeded/$id/demo.py >/dev/null 2>&1); dwo=$?
+  fi
+  first=$(echo "$res" | grep -m1 "^violation:" | cut -c1-150 | tr '|' '/')
+  echo "| $id | $suite | $dw/$dwo | $prop | $rc | ${first:-"-"} |" >> $tmp
+  echo "$id suite=[$suite] demo=$dw/$dwo exit=$rc"
 done
-rm -rf /tmp/ev_matrix_$$
+mv $tmp $out
